@@ -99,17 +99,18 @@ type Op struct {
 	// generator can know it (elements kept on accounts no other client touches)
 	Expect string `json:"expect,omitempty"`
 
-	From        string    `json:"from,omitempty"`         // import: source ledger whose export is fed in
-	ImportFrom  int       `json:"import_from,omitempty"`  // import only logs with id >= this
-	ImportTo    int       `json:"import_to,omitempty"`    // import only logs with id <= this
-	Remainder   bool      `json:"remainder,omitempty"`    // import the logs the destination does not have yet
-	ImportOrder []int     `json:"import_order,omitempty"` // import exactly the logs with these ids, in this order
-	Raw         *Request  `json:"raw,omitempty"`
-	Capture     string    `json:"capture,omitempty"` // raw admin requests: remember data.id under this name ("reset": mark a reset)
-	SleepMs     int       `json:"sleep_ms,omitempty"`
-	Walk        *WalkSpec `json:"walk,omitempty"`
-	Keep        bool      `json:"keep,omitempty"` // never removed by the minimiser (later ops depend on its answer)
-	Chunked     int       `json:"chunked,omitempty"`
+	From         string    `json:"from,omitempty"`          // import: source ledger whose export is fed in
+	ImportFrom   int       `json:"import_from,omitempty"`   // import only logs with id >= this
+	ImportTo     int       `json:"import_to,omitempty"`     // import only logs with id <= this
+	Remainder    bool      `json:"remainder,omitempty"`     // import the logs the destination does not have yet
+	ImportOrder  []int     `json:"import_order,omitempty"`  // import exactly the logs with these ids, in this order
+	ImportRehash bool      `json:"import_rehash,omitempty"` // ... with hashes recomputed so that they chain in stream order
+	Raw          *Request  `json:"raw,omitempty"`
+	Capture      string    `json:"capture,omitempty"` // raw admin requests: remember data.id under this name ("reset": mark a reset)
+	SleepMs      int       `json:"sleep_ms,omitempty"`
+	Walk         *WalkSpec `json:"walk,omitempty"`
+	Keep         bool      `json:"keep,omitempty"` // never removed by the minimiser (later ops depend on its answer)
+	Chunked      int       `json:"chunked,omitempty"`
 }
 
 func (o *Op) sig() string {
@@ -363,6 +364,9 @@ func (o *Op) Render(exports map[string]string) Request {
 		r.Body = filterExport(exports[o.From], o.ImportFrom, o.ImportTo)
 		if len(o.ImportOrder) > 0 {
 			r.Body = permuteExport(exports[o.From], o.ImportOrder)
+			if o.ImportRehash {
+				r.Body = rehashExport(r.Body)
+			}
 		}
 		if r.Chunked == 0 {
 			r.Chunked = 1 << 20
